@@ -323,6 +323,7 @@ func (c *c10ctx) ruleR1() {
 	})
 	good := len(adds) == len(dones) && len(adds) == len(gos)
 	msg := ""
+	deficit := 0 // Add - Done - core loops on the unbalanced exit (0: not a plain count)
 	for i := range adds {
 		if !good {
 			break
@@ -341,12 +342,14 @@ func (c *c10ctx) ruleR1() {
 		if na-nd != ng {
 			good = false
 			msg = fmt.Sprintf("exit at %s: WaitGroup.Add x%d, Done x%d, core loop started x%d: the run-done barrier is left unbalanced", p.InstrPos(adds[i].Instr), na, nd, ng)
+			deficit = na - nd - ng
 		}
 	}
 	// clean-up done by a deferred closure (`defer func() { if err != nil { abort(); deactivate() } }()`):
 	// what it does on each exit depends on variables it captures; the per-exit counts above do not
 	// include it
 	var cleanupDefers []*ssa.Defer
+	deferDone := false // some deferred clean-up closure can call Done
 	Instrs(fn, func(in ssa.Instruction) {
 		d, ok := in.(*ssa.Defer)
 		if !ok {
@@ -365,6 +368,9 @@ func (c *c10ctx) ruleR1() {
 			x := dd.In
 			if CallOf(x) == nil {
 				return
+			}
+			if c.allImpls(x, func(f *ssa.Function) bool { return c.callsWG(f, "Done") }) {
+				deferDone = true
 			}
 			if sets("Inactive")(x) || c.allImpls(x, func(f *ssa.Function) bool { return c.callsWG(f, "Done") }) || calleeNamed(x, "abortStart") {
 				has = true
@@ -397,7 +403,10 @@ func (c *c10ctx) ruleR1() {
 		r.Check(armedAfter, "C10.R1", FuncName(fn)+": the deferred clean-up is armed only after the source entered Starting", p.InstrPos(d), "the defer is on the success side of the Starting transition",
 			"the clean-up closure deferred here (it releases devices / deactivates when the function returns an error) is installed before the test of the Starting transition: a Start that is refused because the source is already running returns that error, the closure runs, and the running source has its devices closed and its state reset - it stays Active but delivers no more blocks")
 	}
-	if !good && len(cleanupDefers) > 0 {
+	if !good && len(cleanupDefers) > 0 && deficit > 0 && !deferDone {
+		// the closure, whatever it decides from its captured variables, has no path that calls Done
+		r.Bad("C10.R1", FuncName(fn)+" run-done balance", p.Pos(fn.Pos()), msg+" (the deferred clean-up closure never deactivates the barrier either)")
+	} else if !good && len(cleanupDefers) > 0 {
 		r.Unk("C10.R1", FuncName(fn)+" run-done balance", p.Pos(fn.Pos()), "the exits are cleaned up by a deferred closure whose actions depend on captured variables ("+msg+" without it): the balance of the run-done barrier is not decided for this form")
 	} else {
 		r.Check(good, "C10.R1", FuncName(fn)+" run-done balance", p.Pos(fn.Pos()), "on every exit Add-Done equals the number of core loops started (which call Done when they end)", msg)
